@@ -11,6 +11,7 @@ LIB-SSE CODE
 @description: 
 """
 import json
+import os
 import pathlib
 import pickle
 import shutil
@@ -25,8 +26,16 @@ def check_sid_folder_exist(sid: str):
     return _PROGRAM_PATH.joinpath(sid).exists()
 
 
+def check_sid_local_file_valid(sid: str):
+    """A service is stored completely once its state file exists (it is written last)."""
+    return _PROGRAM_PATH.joinpath(sid).exists() \
+           and _PROGRAM_PATH.joinpath(sid).joinpath("config.json").exists() \
+           and _PROGRAM_PATH.joinpath(sid).joinpath("service_meta").exists()
+
+
 def create_sid_folder(sid: str):
-    _PROGRAM_PATH.joinpath(sid).mkdir()
+    # the folder may be left over from an upload that was interrupted before the state file was written
+    _PROGRAM_PATH.joinpath(sid).mkdir(exist_ok=True)
 
 
 def delete_sid_folder(sid: str):
@@ -55,8 +64,11 @@ def write_service_meta(sid: str, meta: dict):
     if not service_dir_path.exists():
         return
 
-    with open(service_dir_path.joinpath("service_meta"), "wb") as f:
+    # write to a temporary file and rename it, so that the state file is never seen empty or half-written
+    tmp_path = service_dir_path.joinpath("service_meta.tmp")
+    with open(tmp_path, "wb") as f:
         pickle.dump(meta, f)
+    os.replace(tmp_path, service_dir_path.joinpath("service_meta"))
 
 
 def read_encrypted_database(sid: str) -> bytes:
